@@ -235,4 +235,16 @@ example : arrayLenSite ⟨[.local false (some 1), .local true (some 2), .atom (.
 `const_data` has nothing for it (`Ok(None)` → `panic!("… didn't work")`, confirmed) -/
 example : comptimeArgSite ⟨[.atom (.noData .boolLit)], []⟩ 5 0 = ⟨none, true, .panic⟩ := by decide
 
+/-- a DIAMOND is not a cycle: `N :: 3; SQUARE :: usize.[N, N];` — the walk over the value of `SQUARE`
+(node 0) reaches the body of `N` twice, through two different parents; the ancestor test of the
+fixed `get_const` answers const (a test "was this body seen before?" — seeded change C15_3 — would
+answer runtime). `globalSite` is the "globals must be constant values" check. -/
+def diamond : Prog :=
+  ⟨[.arrayLit true [1, 2], .localGlobal false true 3, .localGlobal false true 3, .atom (.intLit 3)], []⟩
+
+example : getConst diamond 20 0 = getConst ⟨[.arrayLit true [1], .localGlobal false true 2, .atom (.intLit 3)], []⟩ 20 0 := by
+  decide
+
+example : (globalSite false diamond 20 0).diag = none := by decide
+
 end CapyV.C15
